@@ -81,7 +81,11 @@ def handler(payload):
             out["csf"] = {"version": seg.version, "off": csf.offset, "cmds": [cmd_summary(c) for c in seg.commands],
                           "fuses": fuses, "reexport": csf.export().hex(),
                           "nonce": None if csf.nonce is None else csf.nonce.hex(), "mac_len": csf.mac_len}
-        out["reexport"] = p.export().hex()
+        try:
+            out["reexport"] = p.export().hex()
+        except Exception as ex:  # noqa  (reported to the oracle, the parse observables stay usable)
+            out["reexport"] = None
+            out["reexport_error"] = type(ex).__name__
         return out
 
     wd = payload["workdir"]
